@@ -67,9 +67,40 @@ fn grid_event(rng: &mut StdRng, ds: &[(u64, u32)]) -> Value {
     let i1 = if rng.gen_bool(0.9) { rng.gen_range(0..l1) } else { rng.gen_range(l1..=l1 + 1) };
     let l2 = rng.gen_range(1..=3u64);
     let i2 = if rng.gen_bool(0.9) { rng.gen_range(0..l2) } else { rng.gen_range(l2..=l2 + 1) };
-    let n: i64 = *[-1i64, 0, 0, 1, 1, 2, 2, 3, 3, 4, 5, 6][..].get(rng.gen_range(0..12)).unwrap();
-    let (d1, c1) = ds[rng.gen_range(0..ds.len().min(8))];
-    let (d2, c2) = if n == 0 && rng.gen_bool(0.8) { (d1, c1) } else { ds[rng.gen_range(0..ds.len().min(8))] };
+    // (one event in six: a steep trend -- many epoch switches with the epoch difficulty moving by almost tau at
+    //  every one of them, up or down; the legal totals then lie far from "the start difficulty all the way")
+    let steep = rng.gen_bool(0.17);
+    let n: i64 = if steep { rng.gen_range(4..=6) } else { *[-1i64, 0, 0, 1, 1, 2, 2, 3, 3, 4, 5, 6][..].get(rng.gen_range(0..12)).unwrap() };
+    let (l1, i1, l2, i2) = if steep { (1, 0, *[1u64, 2, 3][..].get(rng.gen_range(0..3)).unwrap(), 0) } else { (l1, i1, l2, i2) };
+    let pick = |rng: &mut StdRng, want: u64| -> (u64, u32) {
+        // the exact difficulty closest to `want`
+        let mut best = ds[0];
+        for x in ds.iter() {
+            if (x.0 as i64 - want as i64).abs() < (best.0 as i64 - want as i64).abs() {
+                best = *x;
+            }
+        }
+        let _ = rng;
+        best
+    };
+    let (d1, c1, d2, c2) = if steep {
+        let k = (n as u64).saturating_sub(rng.gen_range(0..=1));
+        if rng.gen_bool(0.5) {
+            // growth: start small, end about start * 2^k
+            let (d1, c1) = ds[rng.gen_range(0..2.min(ds.len()))];
+            let (d2, c2) = pick(rng, (d1 * pow(2, k) / l2).max(1));
+            (d1, c1, d2, c2)
+        } else {
+            // shrinkage: start large, end about start / 2^k
+            let (d1, c1) = ds[ds.len() - 1 - rng.gen_range(0..3.min(ds.len()))];
+            let (d2, c2) = pick(rng, (d1 / pow(2, k) / l2).max(1));
+            (d1, c1, d2, c2)
+        }
+    } else {
+        let (d1, c1) = ds[rng.gen_range(0..ds.len().min(8))];
+        let (d2, c2) = if n == 0 && rng.gen_bool(0.8) { (d1, c1) } else { ds[rng.gen_range(0..ds.len().min(8))] };
+        (d1, c1, d2, c2)
+    };
     let e1 = (BASE, i1, l1);
     let e2 = ((BASE as i64 + n) as u64, i2, l2);
     let s = d1 * l1;
@@ -84,7 +115,10 @@ fn grid_event(rng: &mut StdRng, ds: &[(u64, u32)]) -> Value {
         .map(|i| ((s + pow(2, i) - 1) / pow(2, i)).max((t + pow(2, nn - i) - 1) / pow(2, nn - i)))
         .sum();
     let same = d1 * i2.saturating_sub(i1);
-    let cands = [0, same, unaligned, unaligned + grow, unaligned + shrink, unaligned + tight_max, unaligned + tight_min];
+    // "the start epoch difficulty for every full epoch in between"
+    let flat = unaligned + s * nn.saturating_sub(1);
+    let cands = [0, same, unaligned, unaligned + grow, unaligned + shrink, unaligned + tight_max, unaligned + tight_min,
+        flat, (flat + unaligned + tight_min) / 2, (flat + unaligned + tight_max) / 2];
     let total = if rng.gen_bool(0.6) {
         let c = cands[rng.gen_range(0..cands.len())] as i64 + rng.gen_range(-2i64..=2);
         c.max(0) as u64
